@@ -74,7 +74,63 @@ type params struct {
 
 var classes = []string{"inorder", "reorder", "dup", "reorder-dup", "gap-cache", "gap-cache-reorder-dup", "gap-lost", "gap-mixed", "late-start"}
 
+// Sessions of the "long-hold" delivery class live in an index space of their
+// own (longHoldBase + k), so that a replay file's (session, thorough) pair
+// still identifies a case and the other classes keep their indices.
+const (
+	longHoldBase = uint64(1) << 20
+	// the recorder's muxer (mkvcore's multi track block sorter) starts writing a
+	// track's oldest blocks once it holds more than videoMaxLate+16 of them
+	sorterWindow = 272
+)
+
+// genLongHold: audio next to LOW RATE video (3-6 frames/s of 1-2 packets, 10-40
+// s of media, nothing runs in real time), everything in order and nothing lost
+// except one or two video packets in mid-stream that reach the recorder 30-200
+// video packets late: inside the recorder's reorder window for video (256
+// packets), but many seconds late, so that hundreds of audio packets are
+// recorded while the sample builder holds the video back.  The essentials
+// (codec, frame rate, sender report timing, end) are a function of k alone.
+func genLongHold(r *rand.Rand, idx uint64, thorough bool) params {
+	k := idx - longHoldBase
+	p := params{Session: idx, Thorough: thorough, Class: "long-hold", Audio: true, Video: "vp8", PPF: "s"}
+	if thorough {
+		p.Video = []string{"vp8", "vp9", "vp8", "h264"}[(k/4)%4]
+	}
+	p.Fps = 3 + int(k%4)
+	p.NV = 60 + r.IntN(61)
+	sr := [][2]string{{"before", "before"}, {"never", "never"}, {"before", "never"}, {"never", "before"}, {"after", "after"}, {"never", "after"}, {"after", "before"}}[k%7]
+	p.SRV, p.SRA = sr[0], sr[1]
+	p.End = []string{"departure", "close"}[(k/2)%2]
+	p.SeqWrapV = r.IntN(100) < 35
+	p.SeqWrapA = r.IntN(100) < 35
+	p.TsWrapV = r.IntN(100) < 25
+	p.TsWrapA = r.IntN(100) < 25
+	p.FirstKF = r.IntN(3)
+	if r.IntN(2) == 0 {
+		p.KfEvery = 15 + r.IntN(46)
+	}
+	p.Desc = r.IntN(3)
+	p.Ext = r.IntN(3) == 0
+	p.AOffMs = -r.IntN(301)
+	if p.SRA == "before" && p.SRV == "before" {
+		p.AOffMs = r.IntN(601) - 300
+	}
+	if r.IntN(2) == 0 {
+		d := []int{30, 80, 150}[r.IntN(3)]
+		if r.IntN(2) == 0 {
+			p.DelayA = d
+		} else {
+			p.DelayV = d
+		}
+	}
+	return p
+}
+
 func genParams(r *rand.Rand, idx uint64, thorough bool) params {
+	if idx >= longHoldBase {
+		return genLongHold(r, idx, thorough)
+	}
 	p := params{Session: idx, Thorough: thorough}
 	p.Class = classes[idx%uint64(len(classes))]
 	sets := []string{"vp8+a", "vp8+a", "vp8+a", "vp8", "a", "vp8+a", "vp8+a"}
@@ -216,7 +272,8 @@ type track struct {
 	selfFetch  int // GetPacket asked for the very packet being written
 	writing    int // packet index inside Write, -1 outside
 
-	maxDelay   float64 // max (arrival - capture) over delivery events, ms
+	late       [][2]int // long-hold: (packet index, number of packets of this track it arrives late)
+	maxDelay   float64  // max (arrival - capture) over delivery events, ms
 	maxGapRun  int
 	firstEvent int // packet index of the first delivery event
 	srEvents   []int64
@@ -817,6 +874,86 @@ func planTrack(t *track, r *rand.Rand, class string, delay float64) []event {
 	return evs
 }
 
+// planLongHold delivers the video track of a long-hold session: every packet
+// at its capture instant (+ path delay), in order, nothing withheld, except one
+// or two victims that arrive right after the packet sent 30..200 packets after
+// them.  A victim lies at least three frames behind the first keyframe (the
+// file exists, the origin is fixed) and is never the first packet of a frame
+// of several packets (see the assumption about K1 in main).
+func planLongHold(t *track, r *rand.Rand, delay float64) []event {
+	n := len(t.pkts)
+	t.withheld = make([]int8, n)
+	arr := make([]float64, n)
+	for pi := range t.pkts {
+		f := &t.frames[t.pkts[pi].frame]
+		arr[pi] = f.capMs + delay + 0.001*float64(pi-f.p0)
+	}
+	firstKf := 0
+	for i := range t.frames {
+		if t.frames[i].key {
+			firstKf = i
+			break
+		}
+	}
+	pmin := t.frames[min(firstKf+3, len(t.frames)-1)].p0
+	eligible := func(pi int) bool {
+		f := &t.frames[t.pkts[pi].frame]
+		return pi >= pmin && (f.pn == 1 || pi > f.p0)
+	}
+	pick := func(l int, not int) int {
+		var cands []int
+		for pi := pmin; pi+l <= n-1; pi++ {
+			if eligible(pi) && pi != not {
+				cands = append(cands, pi)
+			}
+		}
+		if len(cands) == 0 {
+			return -1
+		}
+		return cands[r.IntN(len(cands))]
+	}
+	room := n - 1 - pmin // the largest lateness that still ends on a packet of the session
+	// first victim: held for 6.5 .. 22 s of media where the session has room
+	pps := float64(n) / math.Max(1, (t.frames[len(t.frames)-1].capMs-t.frames[0].capMs)/1000)
+	l1 := int(math.Ceil((6.5 + 15.5*r.Float64()) * pps))
+	l1 = max(30, min(l1, 200, room))
+	late := map[int]int{}
+	v1 := pick(l1, -1)
+	if v1 >= 0 {
+		late[v1] = l1
+	}
+	if r.IntN(2) == 0 {
+		// second victim: any lateness in the window, anywhere (the two holds may
+		// be nested, overlap or be apart)
+		l2 := 30 + r.IntN(171)
+		l2 = max(30, min(l2, room))
+		if v2 := pick(l2, v1); v2 >= 0 {
+			late[v2] = l2
+		}
+	}
+	var evs []event
+	for pi := 0; pi < n; pi++ {
+		a := arr[pi]
+		if l, ok := late[pi]; ok {
+			a = arr[min(pi+l, n-1)] + 0.0005
+			t.late = append(t.late, [2]int{pi, l})
+		}
+		evs = append(evs, event{arr: a, trk: t.id, pkt: pi, ord: len(evs)})
+	}
+	sort.SliceStable(evs, func(i, j int) bool {
+		if evs[i].arr != evs[j].arr {
+			return evs[i].arr < evs[j].arr
+		}
+		return evs[i].ord < evs[j].ord
+	})
+	// The late packets do not enter the arrival skew allowed between the
+	// tracks' origins: both origins are fixed around the first keyframe, long
+	// before a victim is due.
+	t.maxDelay = delay + 0.002
+	t.firstEvent = evs[0].pkt
+	return evs
+}
+
 // addSR inserts sender reports for one track into its event list.
 func addSR(t *track, evs []event, r *rand.Rand, when string) []event {
 	switch when {
@@ -884,7 +1021,12 @@ func buildSession(run *vk.Run, p params, noSR bool) *session {
 		if t.id == 1 {
 			delay, when = float64(p.DelayV), p.SRV
 		}
-		evs := planTrack(t, r, p.Class, delay)
+		var evs []event
+		if p.Class == "long-hold" && t.id == 1 {
+			evs = planLongHold(t, r, delay)
+		} else {
+			evs = planTrack(t, r, p.Class, delay)
+		}
 		evs = addSR(t, evs, r, when)
 		all = append(all, evs...)
 		t.delivered = make([]bool, len(t.pkts))
@@ -1380,7 +1522,7 @@ var (
 	pending   []pendingViolation
 )
 
-var classRank = map[string]int{"inorder": 0, "gap-cache": 1, "gap-lost": 2, "dup": 3, "reorder": 4, "late-start": 5, "reorder-dup": 6, "gap-cache-reorder-dup": 7, "gap-mixed": 8}
+var classRank = map[string]int{"inorder": 0, "gap-cache": 1, "gap-lost": 2, "dup": 3, "reorder": 4, "late-start": 5, "reorder-dup": 6, "gap-cache-reorder-dup": 7, "gap-mixed": 8, "long-hold": 9}
 
 func (s *session) violation(key, what string) {
 	v := pendingViolation{
@@ -1454,6 +1596,9 @@ func (s *session) summarise() {
 			"withheld_cached": cached, "withheld_lost": lost, "duplicates": dups, "late_arrivals": late,
 			"first_withheld_packets": firstWithheld, "first_delivered_packet": t.firstEvent,
 			"getpacket_calls": t.getCalls, "recovered": rec, "sender_reports": len(t.srEvents), "keyframe_requests": t.kfRequests,
+		}
+		if len(t.late) > 0 {
+			sum[t.codec].(map[string]any)["late_packets_and_lateness"] = t.late
 		}
 	}
 	s.summary = sum
